@@ -144,6 +144,16 @@ REGISTRY = {
         ],
         "require": {"c20:cold-open": 502, "c20:outcome:cancel": 777, "c20:outcome:disconnect": 597, "c20:outcome:ok": 1592, "c20:outcome:refused": 1326, "c20:outcome:reject": 869, "c20:outcome:t3": 1220, "c20:outcome:write-error": 549, "c20:role:active": 995, "c20:role:passive": 1004},
     },
+    "C12": {
+        "level": "exploration",
+        "claim": "Items and messages of every provenance (constructed from retained caller slices incl. typed slices and a retained []Item, Decode / DecodeHSMSMessage / DecodeHSMSPayload of a caller buffer, re-stamped and derived copies) are snapshotted over every public accessor, serializer, iterator and the SML text by 8 goroutines at once (first use of all lazy paths) and again after the caller scribbles over every retained input and every slice any accessor, serializer or append helper returned (incl. spare capacity); all snapshots must be equal, the race detector must stay silent, Item() must hand one instance to every holder and copy, and a counting Item wrapper must be serialized at most once per message.",
+        "trust": "Binary built with -race (a report fails the run); DecodeOwned / DecodeOwnedHSMSPayload transfer ownership and are deliberately not scribbled (documented contract).",
+        "technique": "property-based testing (rapid) under the race detector: observation-snapshot metamorphic check over caller-side mutations",
+        "tests": [
+            {"name": "TestC12Immutable", "shards": 8, "shards_thorough": 16, "race": True, "crash_is_violation": True},
+        ],
+        "require": {"c12:constructed": 176, "c12:counted:false": 120, "c12:counted:true": 136, "c12:decoded": 81},
+    },
     "C13": {
         "level": "exploration",
         "claim": 'Generated messages over the stated item grammar x all encoder options round-tripped through the strict encoder and strict parser; parser-accepted texts produced by a grammar-directed text generator re-encoded and re-parsed.',
